@@ -29,7 +29,7 @@ func init() {
 			if tier == "quick" {
 				return 30
 			}
-			return 200
+			return 800
 		},
 		Batch:            5,
 		Workers:          8,
